@@ -205,3 +205,13 @@ package ingress
 //@   at call UpdateHostConfig#1 assert named:    $arg1 == hosts[hostname]
 //@   at call UpdateBackendConfig#1 assert named: $arg1 == backends[id]
 //@ end
+
+// C07 — server ids: the id given to an endpoint in one iteration was not in the
+// used set before and is in it afterwards (so no two endpoints of a backend
+// share an id), and is never 0
+//@ func (*converter).syncBackendEndpointHashes#unique
+//@   props C07
+//@   assume-pre Mapper).Get
+//@   loop 2 invariant small: hash <= 2147483647
+//@   loop 1 step fresh-id: ep.TargetRef != "" ==> in(ep.PUID, usedPUIDS) && ep.PUID != 0 && forall v int :: v == ep.PUID ==> !$headmem(in(v, usedPUIDS))
+//@ end
